@@ -376,7 +376,7 @@ func genCase(t *rapid.T, o gen.StyleOpts) Case {
 	used := map[string]int{}
 	var src string
 	relaxed := false
-	layout := rapid.SampledFrom([]string{"strict", "strict", "strict-relaxed", "list", "wrapped", "in-scalar"}).Draw(t, "layout")
+	layout := rapid.SampledFrom([]string{"strict", "strict", "strict-relaxed", "list", "wrapped", "in-scalar", "in-scalar-twice"}).Draw(t, "layout")
 	switch layout {
 	case "strict", "strict-relaxed":
 		src = s.Doc(gen.GenDoc(t, 2, 3))
@@ -388,7 +388,7 @@ func genCase(t *rapid.T, o gen.StyleOpts) Case {
 		for i := 0; i < n; i++ {
 			rules = append(rules, gen.GenRule(t, fmt.Sprintf("r%d", i)))
 		}
-		if layout == "in-scalar" {
+		if strings.HasPrefix(layout, "in-scalar") {
 			s.Opts.KeepChomp, s.Opts.TrailingBlanks = false, false
 		}
 		inner := s.RuleList(rules)
@@ -398,8 +398,13 @@ func genCase(t *rapid.T, o gen.StyleOpts) Case {
 			root = gen.Wrap(t, inner, rapid.IntRange(1, 3).Draw(t, "levels"), true, used)
 		}
 		src = gen.Emit(root)
-		if layout == "in-scalar" {
+		if strings.HasPrefix(layout, "in-scalar") {
 			src = gen.InBlockScalar(src, rapid.IntRange(1, 4).Draw(t, "scalarInd"))
+		}
+		if layout == "in-scalar-twice" {
+			// a document embedded in a document embedded in a document (Helm values -> manifest -> rules)
+			src = "release: x\n" + gen.InBlockScalar(src, rapid.IntRange(1, 4).Draw(t, "scalarInd2"))
+			layout = "in-scalar"
 		}
 		src = s.Finish(src)
 	}
